@@ -136,8 +136,11 @@ PROPS = {
         "trusted_base": ["modelled: commit_prove_state (fork detection, matched-record sweep), rollback_to_block"],
     },
     "C09": {
-        "ops": [("c03", "RunC03", {"quick": 300, "thorough": 5000}), ("c06", "RunC06", {"quick": 40, "thorough": 800})],
-        "rule": "storage-level histories in which set_scripts (all / partial / delete, empty lists, duplicates, start numbers above and below progress) is issued between "
+        "ops": [("c03", "RunC03", {"quick": 300, "thorough": 5000}), ("c06", "RunC06", {"quick": 40, "thorough": 800}),
+                ("c17", "RunC17", {"quick": 1, "thorough": 6})],
+        "rule": "op c17 (one world): set_scripts run on a second thread while a filter batch / block arrival / fork switch is paused at each of its "
+                "writes, and the other way round: the outcome must be that of one of the two serial orders (class C09-set-scripts-interleaved); "
+                "storage-level histories in which set_scripts (all / partial / delete, empty lists, duplicates, start numbers above and below progress) is issued between "
                 "filter_block / update_block_number / min-filtered updates / pending matched records; every step's dump compared with Model/Store.v; after every set_scripts "
                 "the script set is compared with an independent replace / upsert / remove computation, pending records must be gone, and when the progress invariant held "
                 "before the call the new resume point must be at or below every registered script's number",
